@@ -332,6 +332,10 @@ def run(ctx: Ctx, rep: Report, tier: str):
     from rules.common import sort_key_takes_latest_stamp
     rep.rule("C17.A17", "oldest eligible first: SyncState.change orders entries by (priority, the later of the two sides' change stamps)", 1)
     section(rep, lambda: sort_key_takes_latest_stamp(ctx, rep, "C17.A17"))
+    from rules.common import overrides_forward_their_parameters
+    rep.rule("C17.A18", "the scheduling hooks reach the state: every `super().__init__(...)` of the engine passes on each parameter the subclass accepts and the base takes "
+             "(SmartSyncState -> SyncState: prioritize, shuffle, tag)", 3)
+    section(rep, lambda: overrides_forward_their_parameters(ctx, rep, "C17.A18"))
     from rules.decisions import decision_table, table_sites
     rep.rule("C17.DT", "decision table (rules/decisions.json) of ageing, punting, marking changed and the selection of the next change: for every function and every action shape (an impure call with the parameters it passes, a store to an "
              "attribute or item, a delete, a returned constant, a yield, a raise) the set of states - over the function's guard atoms - in which the action is taken "
